@@ -471,6 +471,12 @@ func runProgram(c *vh.Ctx, i int) {
 					continue
 				}
 				k := key("stream-"+v.Rule, s.Node)
+				if s.When == "mid-burst" && s.Mode != "batch-noexisting" && v.Pos <= 1 && p.lineage(s.Node, kSSingle) {
+					// krt.NewStatic: RegisterBatch(existing state) inserts the handler, then loads the value and calls the
+					// handler itself; a Set in between is delivered as well, before or after that initial Add (singleton.go:
+					// no lock spans Insert+Load, nor Swap+dispatch in Set). Registration raced a Set, first two events.
+					k = "stream via=static-singleton-register-race"
+				}
 				if reported[k] {
 					continue
 				}
